@@ -165,6 +165,7 @@ type SimOpts struct {
 	YieldDensity int
 	MaxSteps     int
 	Policy       int // 0: drawn from the tape; k>0: policy k-1
+	CrashAt      int // >0: the simulated process is killed at that step
 }
 
 type fatalHook struct {
@@ -233,7 +234,7 @@ func (rc *RunCtx) Sim(opts SimOpts, root func()) SimResult {
 		}()
 		synctest.Test(rc.T, func(t *testing.T) {
 			res = simrt.Run(simrt.Config{Sched: rc.Sched, Knobs: opts.Knobs, PoolPolicy: opts.PoolPolicy,
-				YieldDensity: opts.YieldDensity, MaxSteps: opts.MaxSteps, Policy: opts.Policy - 1}, root)
+				YieldDensity: opts.YieldDensity, MaxSteps: opts.MaxSteps, Policy: opts.Policy - 1, CrashAt: opts.CrashAt}, root)
 		})
 	}()
 	o := rc.Out
